@@ -3,7 +3,7 @@ import random, time, warnings
 from . import core, dc, dcsuite, dyn, findings
 
 PID = "C18"
-KINDS = ["list", "optional", "dict", "tuple", "union", "dictf", "dictd", "dictb", "listopt"]
+KINDS = ["list", "optional", "dict", "tuple", "union", "dictf", "dictd", "dictb", "listopt", "dictn"]
 
 
 def gen_cases(rng, n):
